@@ -5,7 +5,6 @@ package drpcstream
 
 import (
 	"context"
-	"errors"
 	"fmt"
 	"io"
 	"runtime/trace"
@@ -434,17 +433,18 @@ func (s *Stream) rawFlushLocked() (err error) {
 }
 
 func (s *Stream) checkRecvFlush() (err error) {
-	// a flush fails with io.EOF once the remote side has ended the stream
-	// with an error: what is pending can not be sent any more. that must not
-	// end the receive with io.EOF: it goes on and reports what the stream was
-	// ended with.
+	// once the stream has been terminated (for example by an error or close
+	// from the remote side) what is still pending can not be sent any more,
+	// and the flush says so with the error sends get in that state. that must
+	// not decide what the receive returns: it goes on and reports what the
+	// stream was ended with.
 	s.flush.Do(func() { err = s.RawFlush() })
-	if err != nil && !errors.Is(err, io.EOF) {
+	if err != nil && !s.sigs.term.IsSet() {
 		return err
 	}
 
 	if s.opts.ManualFlush && !s.wr.Empty() {
-		if err := s.RawFlush(); err != nil && !errors.Is(err, io.EOF) {
+		if err := s.RawFlush(); err != nil && !s.sigs.term.IsSet() {
 			return err
 		}
 	}
